@@ -321,6 +321,12 @@ class Interp:
                 return x in container
             if isinstance(x, (str, bytes)) and len(x) == 1:
                 ch = x.decode("latin-1") if isinstance(x, bytes) else x
+                from . import shape
+                ps = shape.pieces_of(to_z3str(container))
+                if ps is not None:
+                    r = shape.contains_char(ps, ch)
+                    if r is not shape.UNKNOWN:
+                        return r
                 return mkbool(z3.Not(z3.InRe(to_z3str(container), z3.Star(sym.re_char_not(ch)))))
             return mkbool(z3.Contains(to_z3str(container), to_z3str(x)))
         cls = type(container)
@@ -691,6 +697,16 @@ class Interp:
         if isinstance(key, slice):
             if key.step is not None:
                 raise Unsupported("slice step")
+            cs, ce = key.start, key.stop
+            if (cs is None or (isinstance(cs, int) and not isinstance(cs, bool) and cs >= 0)) and \
+                    (ce is None or (isinstance(ce, int) and not isinstance(ce, bool) and ce < 0)):
+                # constant cut at both ends of a shaped string: decided on the structure (pyvc/shape.py)
+                from . import shape
+                ps = shape.pieces_of(t)
+                if ps is not None:
+                    r = shape.slice_const_edges(ps, cs, ce)
+                    if r is not shape.UNKNOWN:
+                        return mkstr(shape.concat(r), isb)
             lo = self._slice_bound(key.start, n, True)
             hi = self._slice_bound(key.stop, n, False)
             ln = z3.If(hi > lo, hi - lo, z3.IntVal(0))
